@@ -168,6 +168,22 @@ def check_metadata_writers(A, rep):
                         hit = n
             if isinstance(n, ast.Dict) and any(isinstance(k, ast.Constant) and k.value == "metadata" for k in n.keys):
                 hit = n
+            # the same two forms when the entry is a small record class instead of a dict
+            rec_create = False
+            if isinstance(n, ast.Assign):
+                for t in n.targets:
+                    if isinstance(t, ast.Attribute) and t.attr == "metadata" and not (isinstance(t.value, ast.Name) and t.value.id == "self"):
+                        hit = n
+            if isinstance(n, ast.Call) and isinstance(n.func, (ast.Name, ast.Attribute)):
+                r_ = A.model.resolve_dotted(f.module, n.func)
+                if r_ is not None and r_[0] == "class" and not r_[1].is_subclass_of("SyncedCollection"):
+                    fields = [st_.target.id for st_ in r_[1].node.body if isinstance(st_, ast.AnnAssign) and isinstance(st_.target, ast.Name)]
+                    init_ = next((st_ for st_ in r_[1].node.body if isinstance(st_, ast.FunctionDef) and st_.name == "__init__"), None)
+                    if init_ is not None:
+                        fields = fields or [a_.arg for a_ in init_.args.args][1:]
+                    if "metadata" in fields and "contents" in fields:
+                        hit = n
+                        rec_create = True
             if hit is None:
                 continue
             n_sites += 1
@@ -175,7 +191,7 @@ def check_metadata_writers(A, rep):
             while not isinstance(st, ast.stmt):
                 st = st._parent
             # allowed: where the entry is created (a dict display with its contents), or after this function wrote the file itself
-            creates = isinstance(hit, ast.Dict) and any(isinstance(k, ast.Constant) and k.value == "contents" for k in hit.keys)
+            creates = rec_create or (isinstance(hit, ast.Dict) and any(isinstance(k, ast.Constant) and k.value == "contents" for k in hit.keys))
             after_own_write = any(isinstance(c, ast.Call) and isinstance(c.func, ast.Attribute) and c.func.attr == "_save_to_resource" and c.lineno <= hit.lineno for c in ast.walk(f.node))
             okw = creates or after_own_write
             if okw:
